@@ -759,8 +759,10 @@ with PolarsImpl.impl_store.impl_manager as impl:
         return x.cum_sum().fill_null(strategy="forward")
 
     @impl(ops.list_agg)
-    def _list_agg(x, *, _empty_group_by: bool):
-        if _empty_group_by:
+    def _list_agg(x, *, _empty_group_by: bool | None = None):
+        # `_empty_group_by` is only given in `summarize`. In `mutate`, every row gets
+        # the list of its partition (via `over`) or of the whole column.
+        if _empty_group_by is None or _empty_group_by:
             return x.implode()
         return x
 
